@@ -237,7 +237,10 @@ fn probe_sx(v: Option<Option<i64>>) -> Sx {
     }
 }
 
-/// One probe through every access form; Err(code) when two forms disagree.
+/// One probe through every SHARED checked form (they share one code path: MatrixRef::
+/// try_get_reference); Err(code) when two forms disagree.  The mutable checked form and the two
+/// unchecked forms are separate code paths with their own model functions: they are printed on
+/// their own by `other_forms` / `iterate` and compared with the model directly.
 fn probe<S: MatrixMut<i64> + NoInteriorMutability>(view: &mut MatrixView<i64, S>, r: usize, c: usize) -> Result<Option<Option<i64>>, i64> {
     let base = guarded(|| view.try_get_reference(r, c).copied());
     let Some(value) = base else {
@@ -249,12 +252,6 @@ fn probe<S: MatrixMut<i64> + NoInteriorMutability>(view: &mut MatrixView<i64, S>
     if guarded(|| *view.get_reference(r, c)) != value {
         return Err(1211);
     }
-    if guarded(|| view.try_get_reference_mut(r, c).map(|x| *x)) != Some(value) {
-        return Err(1212);
-    }
-    if guarded(|| *view.get_reference_mut(r, c)) != value {
-        return Err(1213);
-    }
     if guarded(|| view.source_ref().try_get_reference(r, c).copied()) != Some(value) {
         return Err(1214);
     }
@@ -262,15 +259,6 @@ fn probe<S: MatrixMut<i64> + NoInteriorMutability>(view: &mut MatrixView<i64, S>
     if value.is_some() != (r < rows && c < columns) {
         // presence must coincide with being inside the reported size
         return Err(1215);
-    }
-    if let Some(x) = value {
-        // a present cell: the unchecked forms are allowed (hooks are on) and must agree
-        if unsafe { *view.get_reference_unchecked(r, c) } != x {
-            return Err(1216);
-        }
-        if unsafe { *view.get_reference_unchecked_mut(r, c) } != x {
-            return Err(1217);
-        }
     }
     Ok(Some(value))
 }
@@ -298,6 +286,43 @@ fn iterate<S: MatrixMut<i64> + NoInteriorMutability>(view: &mut MatrixView<i64, 
         }
     }
     Ok(rm.into_iter().map(|x| l(vec![z(x)])).collect())
+}
+
+/// The mutable checked getter on every probe and the unchecked mutable getter on every cell of
+/// the view (row-major), each printed on its own: the model transcribes these code paths
+/// separately (coq/theories/Model/MatrixAccess.v).  Cross-checked here only against API forms
+/// that share their code path: MatrixView::get_reference_mut (= try_get_reference_mut or panic),
+/// and direct get_reference_unchecked calls against row_major_iter (both the shared unchecked path).
+fn other_forms<S: MatrixMut<i64> + NoInteriorMutability>(view: &mut MatrixView<i64, S>, probes: &[(usize, usize)]) -> Result<Sx, i64> {
+    let mut mut_ps: Vec<Sx> = vec![];
+    for &(r, c) in probes {
+        let a = guarded(|| view.try_get_reference_mut(r, c).map(|x| *x));
+        let b = guarded(|| *view.get_reference_mut(r, c));
+        match a {
+            Some(Some(x)) if b != Some(x) => return Err(1212),
+            Some(None) if b.is_some() => return Err(1213),
+            _ => {}
+        }
+        mut_ps.push(probe_sx(a));
+    }
+    let (rows, columns) = view.size();
+    let mut cells = vec![];
+    if rows <= 64 && columns <= 64 {
+        let rm = guarded(|| view.row_major_iter().collect::<Vec<i64>>());
+        let mut direct = vec![];
+        for r in 0..rows {
+            for c in 0..columns {
+                cells.push(probe_sx(guarded(|| Some(unsafe { *view.get_reference_unchecked_mut(r, c) }))));
+                direct.push(guarded(|| unsafe { *view.get_reference_unchecked(r, c) }));
+            }
+        }
+        if let Some(rm) = rm {
+            if rm.len() != direct.len() || rm.iter().zip(direct.iter()).any(|(x, d)| *d != Some(*x)) {
+                return Err(1216);
+            }
+        }
+    }
+    Ok(l(vec![l(mut_ps), l(cells)]))
 }
 
 fn layout_code(l: Option<DataLayout>) -> i64 {
@@ -457,7 +482,7 @@ fn view_case(args: &[Sx]) -> Sx {
 
     // reads
     let mut m = m0.clone();
-    let reads = with_stack(&mut m, &lf, &ws, |view| -> Result<(Sx, Vec<Sx>, Vec<Sx>, Sx), i64> {
+    let reads = with_stack(&mut m, &lf, &ws, |view| -> Result<(Sx, Vec<Sx>, Vec<Sx>, Sx, Sx), i64> {
         let (rows, columns) = view.size();
         let mut ps = vec![];
         for &(r, c) in &probes {
@@ -465,9 +490,10 @@ fn view_case(args: &[Sx]) -> Sx {
         }
         let it = iterate(view)?;
         let lay = layouts(view)?;
-        Ok((l(vec![z(rows), z(columns)]), ps, it, lay))
+        let others = other_forms(view, &probes)?;
+        Ok((l(vec![z(rows), z(columns)]), ps, it, lay, others))
     });
-    let (size, ps, it, lay) = match reads {
+    let (size, ps, it, lay, others) = match reads {
         Err(r) => return refused_sx(r),
         Ok(Err(code)) => return inconsistent(code),
         Ok(Ok(x)) => x,
@@ -557,7 +583,7 @@ fn view_case(args: &[Sx]) -> Sx {
         }
     }
     let (flags, after) = canonical.unwrap();
-    ok(l(vec![size, l(ps), l(it), l(flags.into_iter().map(|b| z(if b { 0 } else { 2 })).collect()), after, lay]))
+    ok(l(vec![size, l(ps), l(it), l(flags.into_iter().map(|b| z(if b { 0 } else { 2 })).collect()), after, lay, others]))
 }
 
 /// A stack over MatrixRefTensor::from(a 2-dimensional tensor view built by the C02 interpreter);
@@ -613,7 +639,7 @@ fn tensor_view_case(args: &[Sx]) -> Sx {
     ) else {
         return bad_case();
     };
-    let reads = with_tensor_stack(term, &ws, |view| -> Result<(Sx, Vec<Sx>, Vec<Sx>, Sx), i64> {
+    let reads = with_tensor_stack(term, &ws, |view| -> Result<(Sx, Vec<Sx>, Vec<Sx>, Sx, Sx), i64> {
         let (rows, columns) = view.size();
         let mut ps = vec![];
         for &(r, c) in &probes {
@@ -621,9 +647,10 @@ fn tensor_view_case(args: &[Sx]) -> Sx {
         }
         let it = iterate(view)?;
         let lay = layouts(view)?;
-        Ok((l(vec![z(rows), z(columns)]), ps, it, lay))
+        let others = other_forms(view, &probes)?;
+        Ok((l(vec![z(rows), z(columns)]), ps, it, lay, others))
     });
-    let (size, ps, it, lay) = match reads {
+    let (size, ps, it, lay, others) = match reads {
         Err(r) => return refused_sx(r),
         Ok((Err(code), _)) => return inconsistent(code),
         Ok((Ok(x), _)) => x,
@@ -650,7 +677,7 @@ fn tensor_view_case(args: &[Sx]) -> Sx {
         }
     }
     let (flags, after) = canonical.unwrap();
-    ok(l(vec![size, l(ps), l(it), l(flags.into_iter().map(|b| z(if b { 0 } else { 2 })).collect()), after, lay]))
+    ok(l(vec![size, l(ps), l(it), l(flags.into_iter().map(|b| z(if b { 0 } else { 2 })).collect()), after, lay, others]))
 }
 
 fn part_listing(part: &mut MatrixView<i64, MatrixPart<i64>>) -> Result<Sx, i64> {
@@ -670,6 +697,19 @@ fn part_listing(part: &mut MatrixView<i64, MatrixPart<i64>>) -> Result<Sx, i64> 
     let it = iterate(part)?;
     if it != cells {
         return Err(1251);
+    }
+    // the mutable checked and the unchecked mutable getters of the part (direct model comparison of
+    // these paths happens in the `(12 1 .. (1 rp cp k) ..)` cases; here they must agree with the listing)
+    let mut k = 0;
+    for r in 0..rows {
+        for c in 0..columns {
+            let m = guarded(|| part.try_get_reference_mut(r, c).map(|x| *x));
+            let u = guarded(|| Some(unsafe { *part.get_reference_unchecked_mut(r, c) }));
+            if probe_sx(m) != cells[k] || probe_sx(u) != cells[k] {
+                return Err(1252);
+            }
+            k += 1;
+        }
     }
     Ok(l(vec![l(vec![z(rows), z(columns)]), l(cells)]))
 }
@@ -756,6 +796,162 @@ fn parts_result_wrapper(parts: Option<Vec<MatrixView<i64, MatrixPart<i64>>>>) ->
     Ok(Some(l(listing)))
 }
 
+// ---------------------------------------------------------------- op 7: source-mutation histories
+enum MOp {
+    InsertRow(usize, i64),
+    InsertColumn(usize, i64),
+    RemoveRow(usize),
+    RemoveColumn(usize),
+    TransposeMut,
+    Set(usize, usize, i64),
+}
+
+fn mop(s: &Sx) -> Option<MOp> {
+    let v = s.list()?;
+    Some(match (v.first()?.i64()?, v.len()) {
+        (0, 3) => MOp::InsertRow(v[1].usize()?, v[2].i64()?),
+        (2, 3) => MOp::InsertColumn(v[1].usize()?, v[2].i64()?),
+        (4, 2) => MOp::RemoveRow(v[1].usize()?),
+        (5, 2) => MOp::RemoveColumn(v[1].usize()?),
+        (9, 1) => MOp::TransposeMut,
+        (10, 4) => MOp::Set(v[1].usize()?, v[2].usize()?, v[3].i64()?),
+        _ => return None,
+    })
+}
+
+/// false: the operation panicked (the matrix is left as it was)
+fn apply_mop(m: &mut Matrix<i64>, o: &MOp) -> bool {
+    match *o {
+        MOp::InsertRow(r, v) => guarded(|| m.insert_row(r, v)).is_some(),
+        MOp::InsertColumn(c, v) => guarded(|| m.insert_column(c, v)).is_some(),
+        MOp::RemoveRow(r) => guarded(|| m.remove_row(r)).is_some(),
+        MOp::RemoveColumn(c) => guarded(|| m.remove_column(c)).is_some(),
+        MOp::TransposeMut => guarded(|| m.transpose_mut()).is_some(),
+        MOp::Set(r, c, v) => guarded(|| m.set(r, c, v)).is_some(),
+    }
+}
+
+fn observe_view<S: MatrixMut<i64> + NoInteriorMutability>(view: &mut MatrixView<i64, S>, probes: &[(usize, usize)]) -> Result<Sx, i64> {
+    let (rows, columns) = view.size();
+    let mut ps = vec![];
+    for &(r, c) in probes {
+        ps.push(probe_sx(probe(view, r, c)?));
+    }
+    let it = iterate(view)?;
+    let others = other_forms(view, probes)?;
+    Ok(l(vec![l(vec![z(rows), z(columns)]), l(ps), l(it), others]))
+}
+
+fn flag_sx(fine: bool) -> Sx {
+    z(if fine { 0 } else { 2 })
+}
+
+fn rev_of(r: (bool, bool)) -> Reverse {
+    Reverse { rows: r.0, columns: r.1 }
+}
+
+/// the whole history through one way of building the view and reaching its source
+macro_rules! history_form {
+    ($probes:expr, $ops:expr, $view:ident, $build:expr, |$o:ident| $mutate:expr) => {{
+        (|| -> Result<Vec<Sx>, i64> {
+            let mut $view = $build;
+            let mut out = vec![observe_view(&mut $view, $probes)?];
+            for $o in $ops.iter() {
+                let fine: bool = $mutate;
+                out.push(l(vec![flag_sx(fine), observe_view(&mut $view, $probes)?]));
+            }
+            Ok(out)
+        })()
+    }};
+}
+
+fn source_history_case(args: &[Sx]) -> Sx {
+    let Some(m0) = root(&args[1..4]) else { return bad_case() };
+    let (Some(revs), Some(ops), Some(probes)) = (
+        args[4].list().and_then(|v| {
+            v.iter()
+                .map(|x| {
+                    let p = x.list()?;
+                    if p.len() != 2 {
+                        return None;
+                    }
+                    Some((p[0].bool()?, p[1].bool()?))
+                })
+                .collect::<Option<Vec<_>>>()
+        }),
+        args[5].list().and_then(|v| v.iter().map(mop).collect::<Option<Vec<_>>>()),
+        args[6].pairs_usize(),
+    ) else {
+        return bad_case();
+    };
+    let mut results: Vec<Result<Vec<Sx>, i64>> = vec![];
+    match revs.len() {
+        1 => {
+            let r0 = revs[0];
+            // the view borrows the matrix; the source is reached through the view
+            let mut a = m0.clone();
+            results.push(history_form!(&probes, ops, view, MatrixView::from(MatrixReverse::from(&mut a, rev_of(r0))),
+                |o| apply_mop(view.source_ref_mut().source_ref_mut(), o)));
+            // the view owns the matrix
+            results.push(history_form!(&probes, ops, view, MatrixView::from(MatrixReverse::from(m0.clone(), rev_of(r0))),
+                |o| apply_mop(view.source_ref_mut().source_ref_mut(), o)));
+            // the shorthands Matrix::reverse_mut / reverse_owned
+            let mut b = m0.clone();
+            results.push(history_form!(&probes, ops, view, b.reverse_mut(rev_of(r0)),
+                |o| apply_mop(view.source_ref_mut().source_ref_mut(), o)));
+            results.push(history_form!(&probes, ops, view, m0.clone().reverse_owned(rev_of(r0)),
+                |o| apply_mop(view.source_ref_mut().source_ref_mut(), o)));
+            // taking the view apart with source() and re-wrapping the SAME MatrixReverse object
+            results.push((|| -> Result<Vec<Sx>, i64> {
+                let mut view = MatrixView::from(MatrixReverse::from(m0.clone(), rev_of(r0)));
+                let mut out = vec![observe_view(&mut view, &probes)?];
+                for o in ops.iter() {
+                    let mut reverse = view.source();
+                    let fine = apply_mop(reverse.source_ref_mut(), o);
+                    view = MatrixView::from(reverse);
+                    out.push(l(vec![flag_sx(fine), observe_view(&mut view, &probes)?]));
+                }
+                Ok(out)
+            })());
+        }
+        2 => {
+            let (r0, r1) = (revs[0], revs[1]);
+            let mut a = m0.clone();
+            results.push(history_form!(&probes, ops, view,
+                MatrixView::from(MatrixReverse::from(MatrixReverse::from(&mut a, rev_of(r0)), rev_of(r1))),
+                |o| apply_mop(view.source_ref_mut().source_ref_mut().source_ref_mut(), o)));
+            results.push(history_form!(&probes, ops, view,
+                MatrixView::from(MatrixReverse::from(MatrixReverse::from(m0.clone(), rev_of(r0)), rev_of(r1))),
+                |o| apply_mop(view.source_ref_mut().source_ref_mut().source_ref_mut(), o)));
+        }
+        3 => {
+            let (r0, r1, r2) = (revs[0], revs[1], revs[2]);
+            results.push(history_form!(&probes, ops, view,
+                MatrixView::from(MatrixReverse::from(
+                    MatrixReverse::from(MatrixReverse::from(m0.clone(), rev_of(r0)), rev_of(r1)),
+                    rev_of(r2)
+                )),
+                |o| apply_mop(view.source_ref_mut().source_ref_mut().source_ref_mut().source_ref_mut(), o)));
+        }
+        _ => return bad_case(),
+    }
+    let mut canonical: Option<Vec<Sx>> = None;
+    for (i, r) in results.into_iter().enumerate() {
+        match r {
+            Err(code) => return inconsistent(code),
+            Ok(obs) => match &canonical {
+                None => canonical = Some(obs),
+                Some(c) => {
+                    if *c != obs {
+                        return inconsistent(1295 + i as i64);
+                    }
+                }
+            },
+        }
+    }
+    l(canonical.unwrap())
+}
+
 pub fn run(args: &[Sx]) -> Sx {
     match args.first().and_then(|x| x.i64()) {
         Some(1) if args.len() == 8 => view_case(args),
@@ -763,6 +959,7 @@ pub fn run(args: &[Sx]) -> Sx {
         Some(3) if args.len() == 6 => partition_case(args, true),
         Some(5) if args.len() == 5 => partition_after_history(args),
         Some(6) if args.len() == 5 => tensor_view_case(args),
+        Some(7) if args.len() == 7 => source_history_case(args),
         _ => bad_case(),
     }
 }
